@@ -795,7 +795,7 @@ Definition array_result (oracle : nat -> bool) (m : M ptr) h F (Q : nat -> heap 
   \/ (exists h', m h = Ret (None, h') /\ clean_failure h h' /\ refused oracle h h').
 
 Definition number_leaf (l : list dbl) (k : nat) (_ : heap) (d : rdata) : Prop :=
-  exists x, l !! k = Some x /\ d = rd_number x.
+  exists v : dbl, l !! k = Some v /\ d = rd_number v.
 
 Section Public.
   Context (oracle : nat -> bool) (h : heap) (F : forest).
@@ -819,7 +819,7 @@ Section Public.
   Lemma number_array_sim (conv : dbl -> dbl) (l : list dbl) count :
     (0 <= count)%Z -> Z.to_nat count <= length l ->
     array_result oracle
-      (create_array_of oracle (fun i => x <~ rd_arr l i ;; cJSON_CreateNumber oracle (conv x)) false count)
+      (create_array_of oracle (fun j : Z => v <~ rd_arr l j ;; cJSON_CreateNumber oracle (conv v)) false count)
       h F (number_leaf (conv <$> l)) count.
   Proof.
     intros Hc Hlen. apply (create_array_of_sim oracle h F W LB (number_leaf (conv <$> l))); try done.
@@ -848,13 +848,13 @@ Section Public.
     (0 <= count)%Z -> Z.to_nat count <= length l ->
     array_result oracle (cJSON_CreateFloatArray oracle (Some l) count) h F (number_leaf l) count.
   Proof.
-    intros Hc Hlen. pose proof (number_array_sim (fun x => x) l count Hc Hlen) as H. by rewrite list_fmap_id in H.
+    intros Hc Hlen. pose proof (number_array_sim (fun v : dbl => v) l count Hc Hlen) as H. by rewrite list_fmap_id in H.
   Qed.
   Lemma cJSON_CreateDoubleArray_sim (l : list dbl) count :
     (0 <= count)%Z -> Z.to_nat count <= length l ->
     array_result oracle (cJSON_CreateDoubleArray oracle (Some l) count) h F (number_leaf l) count.
   Proof.
-    intros Hc Hlen. pose proof (number_array_sim (fun x => x) l count Hc Hlen) as H. by rewrite list_fmap_id in H.
+    intros Hc Hlen. pose proof (number_array_sim (fun v : dbl => v) l count Hc Hlen) as H. by rewrite list_fmap_id in H.
   Qed.
 
   (** strings: every element a readable C string *)
@@ -863,14 +863,13 @@ Section Public.
 
   Lemma cJSON_CreateStringArray_sim (l : list ptr) count :
     (0 <= count)%Z -> Z.to_nat count <= length l ->
-    (forall k p, k < Z.to_nat count -> l !! k = Some p -> exists sb, p = Some sb /\ Readable h sb) ->
+    (forall k (q : ptr), k < Z.to_nat count -> l !! k = Some q -> exists sb, q = Some sb /\ Readable h sb) ->
     array_result oracle (cJSON_CreateStringArray oracle (Some l) count) h F (strings_leaf l) count.
   Proof.
     intros Hc Hlen Hrd. unfold cJSON_CreateStringArray. cbn [arr_of opt_is_none].
     apply (create_array_of_sim oracle h F W LB (strings_leaf l)); try done.
-    - intros k H d L D (sb & H1 & sb' & H2 & H3 & H4). exists sb. split; [done|]. by exists sb'.
     - intros k H H' N d (sb & H1 & sb' & H2 & H3 & H4) E. exists sb. split; [done|]. exists sb'. split; [done|].
-      pose proof (ext_next _ _ _ E). split; [lia|]. destruct (ext_below _ _ _ E sb' H3) as [-> _]. done.
+      pose proof (ext_next _ _ _ E). split; [lia|]. destruct (ext_below _ _ _ E sb' H3) as [Hs _]. etransitivity; [exact Hs|exact H4].
     - intros k Hc' leaves Hk _ I.
       destruct (lookup_lt_is_Some_2 l k ltac:(lia)) as [p Hp]. destruct (Hrd k p Hk Hp) as (sb & -> & HR).
       eapply leaf_contract_ext; [apply (rd_arr_in_range l k (Some sb) _ _ Hp)|].
@@ -915,9 +914,30 @@ Lemma cJSON_CreateFloatArray_total h F (l : list dbl) count :
 Proof. intros W LB Hc Hl. by apply array_result_total, cJSON_CreateFloatArray_sim. Qed.
 Lemma cJSON_CreateStringArray_total h F (l : list ptr) count :
   WF h F -> live_below h -> (0 <= count)%Z -> Z.to_nat count <= length l ->
-  (forall k p, k < Z.to_nat count -> l !! k = Some p -> exists sb, p = Some sb /\ Readable h sb) ->
+  (forall k (q : ptr), k < Z.to_nat count -> l !! k = Some q -> exists sb, q = Some sb /\ Readable h sb) ->
   exists leaves Hc,
     cJSON_CreateStringArray never (Some l) count h = Ret (Some (h_next h), Hc) /\
     WF Hc (F ++ [T (h_next h) arr leaves]) /\ length leaves = Z.to_nat count /\
     (forall j t, leaves !! j = Some t -> exists x d, t = T x d [] /\ strings_leaf h l j Hc d).
 Proof. intros W LB Hc Hl Hrd. by apply array_result_total, cJSON_CreateStringArray_sim. Qed.
+
+(** * what the success branch says about the heap: the chain under the array node *)
+Lemma array_encoding Hc F x (leaves : list tree) :
+  WF Hc (F ++ [T x arr leaves]) ->
+  let ks := tid <$> leaves in
+  h_lnk Hc !! x = Some (None, None) /\ h_dat Hc !! x = Some (mk_dat arr ks) /\
+  (forall k c, ks !! k = Some c -> h_lnk Hc !! c = Some (link_at ks k)) /\
+  (forall k c d, leaves !! k = Some (T c d []) -> h_dat Hc !! c = Some (mk_dat d [])).
+Proof.
+  intros Wk ks.
+  assert (Hin : (x, arr, ks) ∈ flat (F ++ [T x arr leaves])).
+  { rewrite flat_app, flat_singleton, flat_t_unfold. apply elem_of_app. right. by left. }
+  split_and!.
+  - apply (WF_lookup_lnk_root _ _ _ Wk). rewrite roots_app. apply elem_of_app. right. by left.
+  - by apply (WF_lookup_dat _ _ _ _ _ Wk).
+  - intros k c Hk. by apply (WF_lookup_lnk_child _ _ _ _ _ _ _ Wk Hin Hk).
+  - intros k c d Hk. apply (WF_lookup_dat _ _ _ _ _ Wk).
+    rewrite flat_app, flat_singleton, flat_t_unfold. apply elem_of_app. right. right.
+    apply elem_of_list_lookup_2 in Hk. change (c, d, []) with (flat_of (T c d [])).
+    apply elem_of_flat. by apply roots_in_nodes.
+Qed.
